@@ -453,7 +453,7 @@ func gen(r *hx.Rand, tier string, i int) string {
 			return "M -"
 		}
 		return "M " + strings.Join(hs, ",")
-	case 1: // header only
+	case 1: // header only: Header.Deserialization, or the same bytes through RawHeader.Deserialization
 		s := randBlock(r)
 		s.headerOnly = true
 		kind := mutate(r, s)
@@ -461,7 +461,15 @@ func gen(r *hx.Rand, tier string, i int) string {
 		if kind == "bytes" {
 			b = byteMutate(r, b)
 		}
+		if r.Chance(40) {
+			return "R " + g.ToBx(b)
+		}
 		return "H " + g.ToBx(b) + " " + keysOracle(b)
+	case 2:
+		if r.Chance(50) {
+			return "X " + g.ToBx(genCCM(r))
+		}
+		fallthrough
 	default:
 		s := randBlock(r)
 		kind := mutate(r, s)
@@ -471,6 +479,91 @@ func gen(r *hx.Rand, tier string, i int) string {
 		}
 		return "B " + g.ToBx(b) + " " + g.Oracle(b, nil) + " " + keysOracle(b)
 	}
+}
+
+// ---------- CrossChainMsg ----------
+
+// counts for which the shipped decoder would try to allocate gigabytes (make([][]byte, 0, n)): never executed
+func ccmDanger(bs []byte) bool {
+	src := common.NewZeroCopySource(bs)
+	if src.Skip(1 + 4 + 32) {
+		return false
+	}
+	n, _, irr, eof := src.NextVarUint()
+	return !irr && !eof && n > 1<<20 && n <= (1<<48)/24
+}
+
+func genCCM(r *hx.Rand) []byte {
+	for {
+		m := &types.CrossChainMsg{Version: byte(r.Intn(3)), Height: uint32(r.U64())}
+		copy(m.StatesRoot[:], r.Bytes(32))
+		ns := []int{0, 0, 1, 2, 5}[r.Intn(5)]
+		for i := 0; i < ns; i++ {
+			m.SigData = append(m.SigData, r.Bytes([]int{0, 1, 65, 70, 0xfd}[r.Intn(5)]))
+		}
+		sink := common.NewZeroCopySink(nil)
+		m.Serialization(sink)
+		b := append([]byte{}, sink.Bytes()...)
+		switch r.Intn(6) {
+		case 0, 1:
+		case 2: // hostile count in front of the real signatures
+			cs := []uint64{uint64(ns) + 1, 0xfd, 0x10000, (1<<48)/24 + 1, 1 << 52, 1 << 63, 1<<64 - 1, 1<<63 - 1}
+			head := g.PutVU(append([]byte{}, b[:37]...), cs[r.Intn(len(cs))], 0)
+			rest := common.NewZeroCopySource(b[37:])
+			rest.NextVarUint()
+			b = append(head, b[37+int(rest.Pos()):]...)
+		case 3: // widened count
+			head := g.PutVU(append([]byte{}, b[:37]...), uint64(ns), []int{3, 5, 9}[r.Intn(3)])
+			b = append(head, b[38:]...)
+		default:
+			b = byteMutate(r, b)
+		}
+		if !ccmDanger(b) {
+			return b
+		}
+	}
+}
+
+func execCCM(line string, bs []byte) (res hx.Result) {
+	res = hx.Result{Key: line}
+	if ccmDanger(bs) {
+		return hx.Result{Out: "refused: count would make the shipped decoder allocate gigabytes"}
+	}
+	defer func() {
+		if e := recover(); e != nil {
+			res = hx.Result{Out: "PANIC", Key: line, Kind: "ccm-panic", Fail: "CrossChainMsg.Deserialization panics: " + fmt.Sprint(e)}
+			if strings.Contains(fmt.Sprint(e), "makeslice") {
+				res.Class = "crosschainmsg-count-makeslice-panic"
+			} else {
+				res.Class = "crosschainmsg-panic"
+			}
+		}
+	}()
+	src := common.NewZeroCopySource(append([]byte{}, bs...))
+	m := new(types.CrossChainMsg)
+	if err := m.Deserialization(src); err != nil {
+		k := g.KindOf(err)
+		return hx.Result{Out: "reject:" + k, Kind: "ccm-rej-" + k, Key: line}
+	}
+	pos := int(src.Pos())
+	sink := common.NewZeroCopySink(nil)
+	m.Serialization(sink)
+	sg := "-"
+	if len(m.SigData) > 0 {
+		var x []string
+		for _, d := range m.SigData {
+			x = append(x, hx.Hex(d))
+		}
+		sg = strings.Join(x, ",")
+	}
+	h := m.Hash()
+	res.Kind = "ccm-ok"
+	res.Out = fmt.Sprintf("ok pos=%d v=%d height=%d root=%s re=%s hash=%s sigs=%s", pos, m.Version, m.Height, hex.EncodeToString(m.StatesRoot[:]),
+		g.HexL(sink.Bytes()), hex.EncodeToString(h[:]), sg)
+	if !bytes.Equal(sink.Bytes(), bs[:pos]) {
+		res.Fail, res.Class = "CrossChainMsg re-encoding differs from the consumed bytes", "crosschainmsg-reencode-differs"
+	}
+	return res
 }
 
 // ---------- exec ----------
@@ -524,6 +617,29 @@ func exec(line string) hx.Result {
 		// reference: recursive definition, computed independently
 		if ref := refRoot(in); ref != root {
 			res.Fail, res.Class = "ComputeMerkleRoot differs from the duplicate-last pairing tree", "merkle-root-not-pairing-tree"
+		}
+		return res
+	case "X":
+		return execCCM(line, g.FromBx(f[1]))
+	case "R":
+		bs := g.FromBx(f[1])
+		src := common.NewZeroCopySource(append([]byte{}, bs...))
+		rh := &types.RawHeader{}
+		if err := rh.Deserialization(src); err != nil {
+			k := g.KindOf(err)
+			return hx.Result{Out: "reject:" + k, Kind: "raw-rej-" + k, Key: line}
+		}
+		pos := int(src.Pos())
+		res := hx.Result{Out: fmt.Sprintf("ok pos=%d height=%d payload=%s", pos, rh.Height, g.HexL(rh.Payload)), Kind: "raw-ok", Key: line}
+		if !bytes.Equal(rh.Payload, bs[:pos]) {
+			res.Fail, res.Class = "RawHeader.Payload is not the consumed bytes", "rawheader-payload-not-consumed-bytes"
+			return res
+		}
+		// whatever Header.Deserialization accepts, RawHeader accepts too, with the same extent and height
+		h := &types.Header{}
+		hs := common.NewZeroCopySource(append([]byte{}, bs...))
+		if err := h.Deserialization(hs); err == nil && (int(hs.Pos()) != pos || h.Height != rh.Height) {
+			res.Fail, res.Class = "RawHeader and Header disagree on extent or height", "rawheader-disagrees-with-header"
 		}
 		return res
 	case "H":
@@ -661,7 +777,16 @@ func corpus() []string {
 		b, _ := s.encode()
 		c = append(c, "B "+g.ToBx(b)+" - "+keysOracle(b))
 	}
-	c = append(c, "B - - -", "H - -")
+	c = append(c, "B - - -", "H - -", "R -", "X -")
+	// CrossChainMsg: counts around the makeslice limit, and a valid message
+	for _, cnt := range []uint64{0, 1, (1 << 48) / 24, (1<<48)/24 + 1, 1 << 63, 1<<64 - 1} {
+		if cnt > 1<<20 && cnt <= (1<<48)/24 {
+			continue
+		}
+		b := g.PutVU(make([]byte, 37), cnt, 0)
+		b = append(b, 1, 0xaa)
+		c = append(c, "X "+g.ToBx(b))
+	}
 	return c
 }
 
@@ -671,7 +796,8 @@ func main() {
 		Rule: "blocks with 0..9 transactions (invoke/deploy/EIP-155 from the C19 generator) and 0..7 bookkeepers built with types.Header / Block.RebuildMerkleRoot / ToArray, " +
 			"mutated: reorder/duplicate (incl. the duplicate-last shapes that keep the root)/drop/replace transactions with stale or recomputed root, each unsigned header field, " +
 			"alternative public-key encodings (uncompressed, labelled, trailing bytes), non-keys, hostile list counts (>= 2^63), tx count, widened var-uints, sigdata, byte edits; " +
-			"header-only lines; ComputeMerkleRoot on hash lists with repeats. Non-trivial = every line (all reach the decoders)",
+			"header-only lines through Header.Deserialization and RawHeader.Deserialization; CrossChainMsg.Deserialization on valid messages with hostile/widened counts and byte edits " +
+			"(counts that would make the shipped decoder allocate gigabytes are never executed); ComputeMerkleRoot on hash lists with repeats. Non-trivial = every line (all reach the decoders)",
 		Gen:    gen,
 		Exec:   exec,
 		Corpus: corpus(),
